@@ -19,7 +19,7 @@ ASSUMPTIONS = ["bitwise comparison of every array reachable from the return valu
 ENTRY = ["random_tensor", "random_cp", "random_tucker", "random_tt", "random_tt_matrix", "random_tr", "random_parafac2",
          "parafac", "parafac_svd_pad", "nn_parafac", "nn_parafac_hals", "constrained_parafac", "randomised_parafac", "tucker", "tucker_randomized_svd",
          "nn_tucker", "nn_tucker_hals", "parafac2", "tr_als", "tr_als_sampled", "tt_cross", "randomized_svd", "sample_khatri_rao",
-         "cp_regressor", "tucker_regressor", "cp_plsr", "estimator_refit", "initialize_cp", "initialize_tucker", "initialize_constrained", "initialize_parafac2",
+         "cp_regressor", "tucker_regressor", "cp_plsr", "estimator_refit", "shared_rank_list", "initialize_cp", "initialize_tucker", "initialize_constrained", "initialize_parafac2",
          "seedfree_decomp", "seedfree_tenalg"]
 CASE_TIMEOUT = {"quick": 120, "thorough": 3000}
 WALL_BUDGET = {"quick": 900, "thorough": 5400}
@@ -124,21 +124,24 @@ def build(entry, rs):
         I, K = int(rs.randint(2, 5)), int(rs.randint(Rk, Rk + 3))
         shapes = [(int(rs.randint(Rk, Rk + 4)), K) for _ in range(I)]
         return (lambda s: R.random_parafac2(shapes, Rk, full=bool(it == 1), random_state=s, normalise_factors=bool(it == 2))), dict(d, shape=shapes)
+    # the SVD routine is a parameter of every SVD-initialised / projection-based algorithm; with the randomized one the seed has to reach it
+    rsvd = bool(rs.rand() < 0.35)
+    sv = {"init": "svd", "svd": "randomized_svd"} if rsvd else {"init": "random"}
     if entry == "parafac":
         o = {"normalize_factors": bool(rs.rand() < 0.3), "linesearch": bool(rs.rand() < 0.2)}
-        return (lambda s: D.parafac(X, Rk, n_iter_max=it, init="random", random_state=s, return_errors=True, **o)), dict(d, **o)
+        return (lambda s: D.parafac(X, Rk, n_iter_max=it, random_state=s, return_errors=True, **sv, **o)), dict(d, randomized_svd=rsvd, **o)
     if entry == "parafac_svd_pad":
         Rbig = max(shp) + int(rs.randint(1, 3))  # rank above a mode size: the SVD init draws the padding
         return (lambda s: D.parafac(X, Rbig, n_iter_max=0, init="svd", random_state=s)), dict(d, rank=Rbig)
     if entry == "nn_parafac":
-        return (lambda s: D.non_negative_parafac(Xp, Rk, n_iter_max=it, init="random", random_state=s, return_errors=True)), d
+        return (lambda s: D.non_negative_parafac(Xp, Rk, n_iter_max=it, random_state=s, return_errors=True, **sv)), dict(d, randomized_svd=rsvd)
     if entry == "nn_parafac_hals":
-        return (lambda s: D.non_negative_parafac_hals(Xp, Rk, n_iter_max=it, init="random", random_state=s, return_errors=True)), d
+        return (lambda s: D.non_negative_parafac_hals(Xp, Rk, n_iter_max=it, random_state=s, return_errors=True, **sv)), dict(d, randomized_svd=rsvd)
     if entry == "constrained_parafac":
         X3 = rs.standard_normal(gen.shape(rs, 3, 2, 5))
-        return (lambda s: D.constrained_parafac(X3, Rk, n_iter_max=it, init="random", random_state=s, non_negative=True, return_errors=True)), dict(d, shape=list(X3.shape))
+        return (lambda s: D.constrained_parafac(X3, Rk, n_iter_max=it, random_state=s, non_negative=True, return_errors=True, **sv)), dict(d, shape=list(X3.shape), randomized_svd=rsvd)
     if entry == "randomised_parafac":
-        return (lambda s: D.randomised_parafac(X, Rk, 10, n_iter_max=it, init="random", random_state=s, return_errors=True, max_stagnation=0)), d
+        return (lambda s: D.randomised_parafac(X, Rk, 10, n_iter_max=it, random_state=s, return_errors=True, max_stagnation=0, **sv)), dict(d, randomized_svd=rsvd)
     if entry == "tucker":
         rk = [int(rs.randint(1, min(s, 3) + 1)) for s in shp]
         return (lambda s: D.tucker(X, rk, n_iter_max=it, init="random", random_state=s, return_errors=True)), dict(d, rank=rk)
@@ -157,7 +160,8 @@ def build(entry, rs):
         r2 = int(rs.randint(1, min(3, K) + 1))
         sl = [rs.standard_normal((int(rs.randint(r2 + 1, 7)), K)) for _ in range(I)]
         if entry == "parafac2":
-            return (lambda s: D.parafac2(sl, r2, n_iter_max=it, init="random", random_state=s, return_errors=True)), dict(d, shape=[list(x.shape) for x in sl], rank=r2)
+            p2o = {"init": gen.choice(rs, ["random", "svd"]), "svd": "randomized_svd"} if rsvd else {"init": "random"}
+            return (lambda s: D.parafac2(sl, r2, n_iter_max=it + (6 if rsvd else 0), random_state=s, return_errors=True, **p2o)), dict(d, shape=[list(x.shape) for x in sl], rank=r2, randomized_svd=rsvd)
         return (lambda s: _parafac2.initialize_decomposition(sl, r2, init="random", random_state=s)), dict(d, shape=[list(x.shape) for x in sl], rank=r2)
     if entry in ("tr_als", "tr_als_sampled"):
         X3 = rs.standard_normal(gen.shape(rs, 3, 2, 4))
@@ -210,6 +214,29 @@ def build(entry, rs):
                 e = CP_PLSR(n_components=min(2, min(fsh)), random_state=s).fit(Xr, y)
                 return [list(e.X_factors), list(e.Y_factors), e.predict(Xr)]
         return f, dict(d, shape=[n] + fsh)
+    if entry == "shared_rank_list":
+        # one rank list owned by the caller, first used for a decomposition that has to clamp it internally, then for seeded generators
+        # and decompositions: the seeded results depend on the seed and on what the caller wrote in the list, nothing else
+        big = [int(rs.randint(5, 8)) for _ in range(3)]
+        small = [2, 2, 2]
+        RANK = [1, 2, int(rs.randint(4, 7)), 1]
+        Xsmall = rs.standard_normal(small)
+        which = gen.choice(rs, ["random_tr", "tr_als", "random_tt", "tensor_train_then_tr"])
+
+        def f(s):
+            # the seeded call first, then the clamping decomposition with the same list: the *next* seeded call must see the same list
+            if which == "random_tt":
+                out = R.random_tt(tuple(big), RANK, random_state=s)
+                D.tensor_train(Xsmall, RANK)
+                return out
+            if which == "tr_als":
+                out = D.tensor_ring_als(rs_fixed, RANK, n_iter_max=2, random_state=s)
+            else:
+                out = R.random_tr(tuple(big), RANK, random_state=s)
+            D.tensor_ring(Xsmall, RANK, mode=0)
+            return out
+        rs_fixed = rs.standard_normal(big)
+        return f, dict(d, which=which, rank=list(RANK))
     if entry == "estimator_refit":
         # the same estimator object fitted twice, and a clone built from get_params(): an integer seed must give the same fit each time
         n = int(rs.randint(8, 20))
@@ -220,6 +247,11 @@ def build(entry, rs):
         other = bool(rs.rand() < 0.5)
         Xr2, y2 = rs.standard_normal([n] + fsh), rs.standard_normal(n)
         Xd2 = np.abs(rs.standard_normal(X.shape)) + 0.1
+        # for Tucker the rank is sometimes given as a fraction / 'same', i.e. resolved against the shape of each tensor it is fitted to;
+        # the data fitted in between then has another shape
+        tk_rank = gen.choice(rs, [[min(2, s_) for s_ in shp], 0.5, "same"])
+        if kind == "Tucker" and not isinstance(tk_rank, list):
+            Xd2 = np.abs(rs.standard_normal([s_ + 2 for s_ in X.shape])) + 0.1
 
         def f(s):
             if kind in ("cp", "tucker", "plsr"):
@@ -229,33 +261,37 @@ def build(entry, rs):
                 grab = {"cp": lambda e: [e.weight_tensor_], "tucker": lambda e: [e.weight_tensor_], "plsr": lambda e: list(e.X_factors)}[kind]
                 e = mk()
                 first = grab(e.fit(Xr, y))
-                if other:     # a fit on other data in between must leave no trace
-                    e.fit(Xr2, y2)
+                extra = {}
+                if other:     # a fit on other data in between must leave no trace, and is itself what a fresh estimator would give
+                    extra = {"d_other": grab(e.fit(Xr2, y2)), "e_other_fresh": grab(mk().fit(Xr2, y2))}
                 refit = grab(e.fit(Xr, y))
                 c = mk().set_params(**e.get_params())
                 clone = grab(c.fit(Xr, y))
             else:
                 Xd = np.abs(X) if kind in ("ConstrainedCP", "CP_NN_HALS") else X
-                kw = {"CP": dict(rank=Rk, n_iter_max=it, init="random"), "Tucker": dict(rank=[min(2, s_) for s_ in shp], n_iter_max=it, init="random"),
+                kw = {"CP": dict(rank=Rk, n_iter_max=it, init="random"), "Tucker": dict(rank=tk_rank, n_iter_max=it, init="random"),
                       "TensorRingALS": dict(rank=[1] + [2] * (order - 1) + [1], n_iter_max=it), "RandomizedCP": dict(rank=Rk, n_samples=10, n_iter_max=it, max_stagnation=0),
                       "ConstrainedCP": dict(rank=Rk, n_iter_max=it, init="random", non_negative=True), "CP_NN_HALS": dict(rank=Rk, n_iter_max=it, init="random")}.get(kind)
                 if kind == "Parafac2":
                     sl = [np.abs(Xr[i]) for i in range(3)]
                     e = D.Parafac2(rank=2, n_iter_max=it, random_state=s, return_errors=True)
                     first = e.fit_transform(sl)
+                    extra = {}
                     if other:
-                        e.fit_transform([np.abs(Xr2[i]) for i in range(3)])
+                        sl2 = [np.abs(Xr2[i]) for i in range(3)]
+                        extra = {"d_other": e.fit_transform(sl2), "e_other_fresh": D.Parafac2(rank=2, n_iter_max=it, random_state=s, return_errors=True).fit_transform(sl2)}
                     refit = e.fit_transform(sl)
                     clone = D.Parafac2(rank=2, n_iter_max=it, random_state=s, return_errors=True).fit_transform(sl)
                 else:
                     Cls = getattr(D, kind)
                     e = Cls(random_state=s, **kw)
                     first = e.fit_transform(Xd)
+                    extra = {}
                     if other:
-                        e.fit_transform(Xd2)
+                        extra = {"d_other": e.fit_transform(Xd2), "e_other_fresh": Cls(random_state=s, **kw).fit_transform(Xd2)}
                     refit = e.fit_transform(Xd)
                     clone = Cls(random_state=s, **kw).fit_transform(Xd)
-            return {"a_first": first, "b_refit": refit, "c_clone": clone}
+            return dict({"a_first": first, "b_refit": refit, "c_clone": clone}, **extra)
         return f, dict(d, kind=kind, refit=True, other_fit_between=other)
     if entry == "initialize_cp":
         o = {"init": gen.choice(rs, ["random", "svd"]), "non_negative": bool(rs.rand() < 0.3), "normalize_factors": bool(rs.rand() < 0.3)}
@@ -346,6 +382,10 @@ def _run_case(case, ctx):
         parts = f(seed)
         ctx.count("clause/estimator-refit")
         b = {k: flat_bytes(v) for k, v in parts.items()}
+        if "d_other" in b and b["d_other"] != b["e_other_fresh"]:
+            ctx.violation("C16:estimator_refit:used-estimator-differs:%s" % desc["kind"], "estimator %s (random_state=%d) already fitted to one data set gives, on a second data set, "
+                          "a different fit than a fresh estimator with the same parameters" % (desc["kind"], seed), desc)
+            return
         if not (b["a_first"] == b["b_refit"] == b["c_clone"]):
             which_ = "refit" if b["a_first"] != b["b_refit"] else "clone"
             ctx.violation("C16:estimator_refit:%s-differs:%s" % (which_, desc["kind"]), "estimator %s built with random_state=%d: the %s gives a different fit than the first fit" % (desc["kind"], seed, which_), desc)
